@@ -652,6 +652,20 @@ func runHistStreams(o Opts) {
 			addHist(iw, hw, genHist(rng.Split(), k, i, 6))
 		}
 	}
+	// round 7: the late-real-block inputs of the residual stream (gen.go LateBlockSweep), whole run replayed by
+	// the loop model: fresh calls and caller-supplied non-identity buffers, Float64 and Real64
+	for i, d := range LateBlockSweep(NewRng(o.Seed*1000211 + 5).Split()) {
+		if hung >= maxHung {
+			iw.Count("skipped-after-hang-budget")
+			continue
+		}
+		h := &HistIn{Kind: "qr", Mode: "fresh", M: d.M, CU: true, Path: d.Path, Family: d.Family}
+		if i%3 == 1 || i%5 == 0 {
+			h.Mode = "garbage"
+		}
+		iw.Count("late-block-sweep")
+		addHist(iw, hw, h)
+	}
 	for i := 0; i < nh; i++ {
 		for _, k := range histKindsOther {
 			if hung >= maxHung {
